@@ -13,6 +13,7 @@
 //! trusted: R15 (deep slice): get_update_fulfill_htlc_and_commit: the statements that give a preimage update the id of the first blocked update and renumber the blocked ones, verbatim (the looked-up element expression, the id expressions and the loop body are captured); R7: `opt.map(|upd| M).unwrap_or(D)` is written as a match; R6: `for x in v.iter_mut() { B }` is an index loop that copies the element out, runs B on it and writes it back; the blocked queue is a Vec of {update: {update_id}} skeletons
 //! assume: the blocked updates carry consecutive ids (they were built one after the other, each with the next id)
 //! trusted: R9: `a |= b;` on bools with a side-effect-free right operand is written `a = a || b;` (Verus has no non-short-circuit `|` on bools); R8: `v.extend(w)` -> vec_extend (v becomes v followed by w); R3: log statements removed; R10: arguments of get_last_revoke_and_ack (a path callback and the logger) and of get_last_commitment_update_for_send (the logger) dropped
+//! trusted: R15 (deep slice): handle_channel_resumption: the branch taken when the peer is not connected (`else if let Some(msg) = channel_ready { .. }`) verbatim, followed by a recorder standing for the rest of the function (funding broadcast, ChannelPending / ChannelReady / SpliceNegotiated events: macros and locks, not sliced); the obligation is that the branch queues the channel_ready and does not leave the function
 //! assume: nothing here decides *when* these functions are called: that every state-advancing handler ends in monitor_updating_paused, that ChannelManager calls monitor_updating_restored only after every in-flight update completed, and the per-channel update-id order are not claimed
 use vstd::prelude::*;
 // R20: how a lock guard is bound: a guard bound to the wildcard pattern `_` is dropped at once, a named binding (also `_name`) lives to the end of its block
@@ -325,6 +326,38 @@ pub open spec fn raa_event(raa: Option<RevokeAndACK>, n: PublicKey) -> Seq<Messa
 //@with
     if !pending_update_adds.is_empty() && channel.context.is_connected() {
 //@end
+// ---- handle_channel_resumption while the peer is away: the channel_ready is queued and the function goes on to the funding broadcast and the events ----
+pub struct ChannelReady { pub id: u64 }
+pub struct HtlcForwards {} pub struct DecodeAdds {}
+pub struct Transaction { pub id: u64 }
+// ghost log: the channel_ready messages handed to send_channel_ready, and whether the statement that deals with the funding transaction was reached
+pub struct ResumptionManager { pub readies: Ghost<Seq<ChannelReady>>, pub reached_funding_step: Ghost<bool> }
+impl ResumptionManager {
+    #[verifier::external_body] pub fn send_channel_ready(&mut self, pending_msg_events: &mut Vec<MessageSendEvent>, channel: &ResumedChannel, msg: ChannelReady)
+        ensures final(self).readies@ == old(self).readies@.push(msg), final(self).reached_funding_step == old(self).reached_funding_step { unimplemented!() }
+    #[verifier::external_body] pub fn funding_broadcast_and_events(&mut self, funding_broadcastable: Option<Transaction>)
+        ensures final(self).readies == old(self).readies, final(self).reached_funding_step@ { unimplemented!() }
+//@extract lightning/src/ln/channelmanager.rs :: impl ChannelManager :: fn handle_channel_resumption
+//@slice R15
+    } else if let Some(msg) = channel_ready { $away:any } if let Some(tx) = funding_broadcastable {
+//@with
+    fn resume_while_the_peer_is_away(&mut self, pending_msg_events: &mut Vec<MessageSendEvent>, channel: &ResumedChannel, channel_ready: Option<ChannelReady>, funding_broadcastable: Option<Transaction>,
+        htlc_forwards: HtlcForwards, decode_update_add_htlcs: DecodeAdds) -> (HtlcForwards, DecodeAdds) {
+        if channel.context.is_connected() { } else if let Some(msg) = channel_ready { $away }
+        self.funding_broadcast_and_events(funding_broadcastable);
+        (htlc_forwards, decode_update_add_htlcs) }
+//@requires
+    !channel.context.connected, !old(self).reached_funding_step@,
+//@ensures P C09 a-channel-resumed-while-its-peer-is-away-queues-its-channel-ready-and-still-goes-on-to-the-funding-broadcast-and-the-events
+    final(self).reached_funding_step@,
+    channel_ready matches Some(m) ==> final(self).readies@ == old(self).readies@.push(m),
+    channel_ready is None ==> final(self).readies@ == old(self).readies@,
+//@mutant resumption_ends_after_queueing_the_channel_ready
+    self.send_channel_ready(pending_msg_events, channel, msg); } if let Some(tx) = funding_broadcastable {
+//@with
+    self.send_channel_ready(pending_msg_events, channel, msg); return (htlc_forwards, decode_update_add_htlcs); } if let Some(tx) = funding_broadcastable {
+//@end
+}
 //@extract lightning/src/chain/mod.rs :: enum ChannelMonitorUpdateStatus
 //@end
 impl vstd::std_specs::cmp::PartialEqSpecImpl for ChannelMonitorUpdateStatus { open spec fn obeys_eq_spec() -> bool { true } open spec fn eq_spec(&self, other: &ChannelMonitorUpdateStatus) -> bool { *self == *other } }
